@@ -7,6 +7,16 @@ NOTES = ("All checks: bin/check <id>. Each run regenerates coq/Gen from /repo, r
          "Known findings: KNOWN_FINDINGS.txt.")
 NOT_APPLICABLE = {}
 CLAIMED = {
+    "C03": {
+        "text": "Theorems: emission in sorted key order is independent of the map iteration order (for every permutation); the obfuscator's PRNG seed is a function of "
+                "the first eight bytes of the seed/action id; and an obligation over the site inventory regenerated from the type-checked garble packages on every "
+                "run (every map range, package-level math/rand call, clock, crypto/rand and process read): each site is of a class that is deterministic by "
+                "construction, hand-reviewed, or one of the listed known order-sensitive sites (the full 'no sensitive site' statement is kept as refuted). Tied by "
+                "double cold builds from different source directories/TMPDIRs/caches, a warm rebuild with other parallelism, and a mixed cache state. Partial: the "
+                "Go toolchain's determinism is assumed; the classifier and the review list are trusted.",
+        "note": "Trusted: Coq kernel; translate/sites (x/tools/go/packages); the reviewed-site list; real double builds. No axioms.",
+        "technique": "Coq proof of order-independence of sorted emission + regenerated site-inventory obligation + double/mixed-cache build comparison",
+    },
     "C10": {
         "text": "Obligations proved over the stripped runtime regenerated on every run (garble's own stripRuntime applied to the toolchain's runtime, callees "
                 "resolved by go/types): no print/println builtin call is left outside print.go; the three required strips exist and call nothing; a checked "
